@@ -29,47 +29,8 @@ impl Intersectable for Obst {
     }
 }
 
-#[cfg(kani)]
-mod k {
-    use super::*;
-
-    fn any_coord() -> f32 {
-        let v: f32 = kani::any();
-        kani::assume(v >= -1.0e4 && v <= 1.0e4);
-        v
-    }
-
-    fn any_obst(tag: u32) -> Obst {
-        let (x0, y0, z0) = (any_coord(), any_coord(), any_coord());
-        let (x1, y1, z1) = (any_coord(), any_coord(), any_coord());
-        kani::assume(x0 <= x1 && y0 <= y1 && z0 <= z1);
-        Obst { aabb: AABB::new(point![x0, y0, z0], point![x1, y1, z1]), hit: true, tag }
-    }
-
-    // Contract P of the partition step for EVERY pair / triple of boxes (symbolic coordinates, coinciding centres
-    // included): nothing lost, both halves non-empty. P is what the Verus proof of the builder assumes.
-    #[kani::proof]
-    #[kani::unwind(4)]
-    fn c13_partition_p_n2() {
-        let set = vec![any_obst(1), any_obst(2)];
-        let (l, r) = BVH::partition_elements_by_centroid(set);
-        assert!(l.len() + r.len() == 2, "C13.partition.nothing_lost");
-        assert!(!l.is_empty() && !r.is_empty(), "C13.partition.both_nonempty");
-        let sum: u32 = l.iter().chain(r.iter()).map(|o| o.tag).sum();
-        assert!(sum == 3, "C13.partition.nothing_lost");
-    }
-
-    #[kani::proof]
-    #[kani::unwind(5)]
-    fn c13_partition_p_n3() {
-        let set = vec![any_obst(1), any_obst(2), any_obst(4)];
-        let (l, r) = BVH::partition_elements_by_centroid(set);
-        assert!(l.len() + r.len() == 3, "C13.partition.nothing_lost");
-        assert!(!l.is_empty() && !r.is_empty(), "C13.partition.both_nonempty");
-        let sum: u32 = l.iter().chain(r.iter()).map(|o| o.tag).sum();
-        assert!(sum == 7, "C13.partition.nothing_lost");
-    }
-}
+// (Kani harnesses for contract P on 2 / 3 symbolic boxes were tried: CBMC runs out of memory on the iterator /
+//  Vec::partition code after 6-14 minutes; P stays a bounded obligation, see DESIGN.md)
 
 #[cfg(verif_native)]
 mod n {
